@@ -585,7 +585,10 @@ Definition handle_clauses (s : srt) (o : line) (r : list bytes) : list bytes :=
   check (negb (accepted && reserved)) "C08:reserved-or-unknown-method-accepted" ++
   (if trace then check (negb (accepted && mem TRACE ms)) "C18:trace-registered-by-hand" else []) ++
   check (negb (accepted && dup)) "C17:duplicate-accepted" ++
-  check (negb (accepted && Nat.eqb (length (live s)) 1 && Nat.eqb (length twins) 1)) "C17:twin-of-the-only-route-accepted" ++
+  (* '{name:}' is another spelling of '{name}': same parse, different text - not "identical up to names" *)
+  (let canonical (q : bytes) := match index q (bs ":}") with Some _ => false | None => true end in
+   check (negb (accepted && Nat.eqb (length (live s)) 1 && Nat.eqb (length twins) 1 && canonical p &&
+                forallb (fun pe => canonical (fst pe)) (live s))) "C17:twin-of-the-only-route-accepted") ++
   (match classify ic p with
    | PWf _ =>
      (* judged only while every live pattern is itself well-formed (e.g. /{-} is accepted by the code but
